@@ -82,7 +82,7 @@ def genTable (size : Nat) : Gen Table := do
     for c in cols do
       -- rarely a row lacks a declared column
       if ← Gen.prob 29 30 then
-        let depth ← Gen.oneOf [0, 0, 0, 1, 2, min size 3, min size 5]
+        let depth ← Gen.oneOf [0, 0, 0, 1, 2, 3, 5]
         row := row ++ [(c, ← genVal depth)]
     -- rarely a key that is not a declared column
     if ← Gen.prob 1 15 then
@@ -105,6 +105,15 @@ def genDump (size : Nat) : Gen Dump := do
     let name := strBytes (← Gen.oneOf ["postgres", "app", "db2", "app"])
     let nt ← Gen.oneOf [0, 1, 1, 2, 3]
     return { name := name, tables := ← Gen.listOf nt (genTable size) })
+
+/-- nesting depth of a value (scalars 0) -/
+partial def depthOf : GoVal → Nat
+  | .arr xs => 1 + (xs.map depthOf).foldl max 0
+  | .obj kvs => 1 + (kvs.map fun kv => depthOf kv.2).foldl max 0
+  | _ => 0
+
+def dumpDepth (d : Dump) : Nat :=
+  (d.flatMap fun db => db.tables.flatMap fun t => t.rows.flatMap fun r => r.map fun kv => depthOf kv.2).foldl max 0
 
 /-! ### patterns -/
 
@@ -157,6 +166,36 @@ def genPattern (pool : List Bytes) : Gen Bytes := do
   let alts ← Gen.listOf na (genAlt pool)
   let flags ← Gen.oneOf ["", "", "", "", "(?i)", "(?-i)", "(?i)(?-i)"]
   return strBytes flags ++ renderAlts alts
+
+/-! ### full RE2 syntax (evaluated only by Go's regexp, on both sides of the comparison: family `searchre`) -/
+
+def reAtoms : List String :=
+  ["a", "b", "e", "1", "_", "x", ".", "\\d", "\\w", "\\s", "\\D", "\\W", "[a-z]", "[^0-9]", "[A-Za-z_]", "[[:alpha:]]", "[[:^digit:]]",
+   "\\pL", "\\p{Greek}", "\\PN", "^", "$", "\\b", "\\B", "\\A", "\\z", "\\.", "\\(", "\\Qa.b\\E", "\\x41", "\\x{3b1}", "é", "日", "", "[", "(", "\\", "\\C"]
+
+def reQuants : List String := ["*", "+", "?", "{2}", "{1,3}", "{0,}", "*?", "+?", "??", "{2,1}", "{1001}", "**"]
+
+partial def genRe : Nat → Gen String
+  | 0 => do
+    if ← Gen.prob 1 2 then
+      let w ← Gen.oneOf words
+      let n := w.length
+      let lo ← Gen.range 0 n
+      let hi ← Gen.range lo n
+      return String.ofList ((w.toList.take hi).drop lo |>.filter fun c => c.isAlphanum || c == '_' || c == ' ')
+    else Gen.oneOf reAtoms
+  | d+1 => do
+    match ← Gen.below 10 with
+    | 0 | 1 => do return (← genRe d) ++ (← genRe d)
+    | 2 => do return (← genRe d) ++ "|" ++ (← genRe d)
+    | 3 => do return "(" ++ (← genRe d) ++ ")"
+    | 4 => do return "(?:" ++ (← genRe d) ++ ")" ++ (← Gen.oneOf reQuants)
+    | 5 => do return (← genRe 0) ++ (← Gen.oneOf reQuants)
+    | 6 => do return (← Gen.oneOf ["(?i)", "(?s)", "(?m)", "(?U)", "(?-i)", "(?i:", "(?P<n>", "(?<m>", "(?is-m:"]) ++ (← genRe d) ++
+                     (if ← Gen.prob 4 5 then ")" else "")
+    | _ => genRe d
+
+def uniWords : List String := ["Ünïcode", "日本語", "αβγ", "K", "ſ", "straße", "é"]
 
 /-- patterns that are not valid RE2 syntax -/
 def invalidPatterns : List String :=
